@@ -2,6 +2,7 @@ package decoder
 
 import (
 	"fmt"
+	"math"
 	"reflect"
 	"unsafe"
 
@@ -55,16 +56,23 @@ func (d *intDecoder) parseInt(b []byte) (int64, error) {
 	if maxDigit > pow10i64Len {
 		return 0, fmt.Errorf("invalid length of number")
 	}
-	sum := int64(0)
+	// at most 19 digits: the magnitude is below 10^19 < 2^64 and cannot wrap as uint64.
+	sum := uint64(0)
 	for i := 0; i < maxDigit; i++ {
-		c := int64(b[i]) - 48
-		digitValue := pow10i64[maxDigit-i-1]
+		c := uint64(b[i]) - 48
+		digitValue := uint64(pow10i64[maxDigit-i-1])
 		sum += c * digitValue
 	}
 	if isNegative {
-		return -1 * sum, nil
+		if sum > 1<<63 {
+			return 0, fmt.Errorf("number overflows int64")
+		}
+		return -int64(sum), nil
 	}
-	return sum, nil
+	if sum > math.MaxInt64 {
+		return 0, fmt.Errorf("number overflows int64")
+	}
+	return int64(sum), nil
 }
 
 var (
